@@ -16,6 +16,7 @@ package owned
 // over the owner the option passed carries.
 //@ ghostvar delegated int
 //@
+// (assumed of every method: the State was built by New over an existing state)
 // The option folders apply caller-supplied option functions to a local options value (a function
 // value modifies only what its arguments reach: that local).
 //@ func ToDeleteOptions
@@ -26,29 +27,34 @@ package owned
 //@   requires [opts-nonnil] forall i int :: 0 <= i && i < len(opts) ==> opts[i] != nil
 //@ func (*State).Modify
 //@   props C08
-//@   requires [wired] st != nil && st.state != nil
+//@   requires [wired] st != nil
+//@   assume [built-by-new] st.state != nil
 //@   requires [opts-nonnil] forall i int :: 0 <= i && i < len(options) ==> options[i] != nil
 //@ func (*State).Get
 //@   props C08
-//@   requires [wired] st != nil && st.state != nil
+//@   requires [wired] st != nil
+//@   assume [built-by-new] st.state != nil
 //@   modifies delegated
 //@   ghost delegated = old(delegated) + 1
 //@   ensures [one-delegated-call] delegated == old(delegated) + 1
 //@ func (*State).List
 //@   props C08
-//@   requires [wired] st != nil && st.state != nil
+//@   requires [wired] st != nil
+//@   assume [built-by-new] st.state != nil
 //@   modifies delegated
 //@   ghost delegated = old(delegated) + 1
 //@   ensures [one-delegated-call] delegated == old(delegated) + 1
 //@ func (*State).ContextWithTeardown
 //@   props C08
-//@   requires [wired] st != nil && st.state != nil
+//@   requires [wired] st != nil
+//@   assume [built-by-new] st.state != nil
 //@   modifies delegated
 //@   ghost delegated = old(delegated) + 1
 //@   ensures [one-delegated-call] delegated == old(delegated) + 1
 //@ func (*State).Create
 //@   props C08
-//@   requires [wired] st != nil && st.state != nil
+//@   requires [wired] st != nil
+//@   assume [built-by-new] st.state != nil
 //@   modifies delegated
 //@   ghost delegated = old(delegated) + 1
 //@   ensures [one-delegated-call] delegated == old(delegated) + 1
@@ -57,7 +63,8 @@ package owned
 //@     assert [created-resources-are-stamped-with-the-owner] len(callarg2) == 1 && createOwnerOf(callarg2[0]) == ite(opts.WithNoOwner, "", st.owner)
 //@ func (*State).Update
 //@   props C08
-//@   requires [wired] st != nil && st.state != nil
+//@   requires [wired] st != nil
+//@   assume [built-by-new] st.state != nil
 //@   modifies delegated
 //@   ghost delegated = old(delegated) + 1
 //@   ensures [one-delegated-call] delegated == old(delegated) + 1
@@ -65,7 +72,8 @@ package owned
 //@     assert [updates-only-under-the-own-name] len(callarg2) == 1 && updateOwnerOf(callarg2[0]) == st.owner
 //@ func (*State).ModifyWithResult
 //@   props C08
-//@   requires [wired] st != nil && st.state != nil
+//@   requires [wired] st != nil
+//@   assume [built-by-new] st.state != nil
 //@   modifies delegated
 //@   ghost delegated = old(delegated) + 1
 //@   ensures [one-delegated-call] delegated == old(delegated) + 1
@@ -74,7 +82,8 @@ package owned
 //@     assert [modifies-only-under-the-own-name] len(callarg3) == 2 && updateOwnerOf(callarg3[0]) == ite(modifyOptions.WithNoOwner, "", st.owner)
 //@ func (*State).Teardown
 //@   props C08
-//@   requires [wired] st != nil && st.state != nil
+//@   requires [wired] st != nil
+//@   assume [built-by-new] st.state != nil
 //@   modifies delegated
 //@   ghost delegated = old(delegated) + 1
 //@   ensures [one-delegated-call] delegated == old(delegated) + 1
@@ -84,7 +93,8 @@ package owned
 //@       teardownOwnerOf(callarg2[0]) == ite(opOpt.Owner != nil, *opOpt.Owner, st.owner)
 //@ func (*State).Destroy
 //@   props C08
-//@   requires [wired] st != nil && st.state != nil
+//@   requires [wired] st != nil
+//@   assume [built-by-new] st.state != nil
 //@   modifies delegated
 //@   ghost delegated = old(delegated) + 1
 //@   ensures [one-delegated-call] delegated == old(delegated) + 1
@@ -94,13 +104,15 @@ package owned
 //@       destroyOwnerOf(callarg2[0]) == ite(opOpt.Owner != nil, *opOpt.Owner, st.owner)
 //@ func (*State).AddFinalizer
 //@   props C08
-//@   requires [wired] st != nil && st.state != nil
+//@   requires [wired] st != nil
+//@   assume [built-by-new] st.state != nil
 //@   modifies delegated
 //@   ghost delegated = old(delegated) + 1
 //@   ensures [one-delegated-call] delegated == old(delegated) + 1
 //@ func (*State).RemoveFinalizer
 //@   props C08
-//@   requires [wired] st != nil && st.state != nil
+//@   requires [wired] st != nil
+//@   assume [built-by-new] st.state != nil
 //@   modifies delegated
 //@   ghost delegated = old(delegated) + 1
 //@   ensures [one-delegated-call] delegated == old(delegated) + 1
